@@ -1728,7 +1728,9 @@ class Network(Cached):
         :rtype: 1d numpy array [node] of floats >= 0
         """
         k = self.degree() * 1.0
-        return self.undirected_adjacency() * k / k[k != 0]
+        #  isolated nodes have no neighbours: their average is defined as 0
+        return np.divide(self.undirected_adjacency() * k, k,
+                         out=np.zeros_like(k), where=k != 0)
 
     @Cached.method(name="maximum neighbours' degrees")
     def max_neighbors_degree(self):
